@@ -1144,6 +1144,10 @@ def _in_model_domain(cells):
 def coq_series_term(cells, o, preds=True):
     cl = C.clist(cells, coq_cell)
     t = f"outcome_eqb (infer_series_stype {cl}) {coq_outcome(o)}"
+    kinds = {c[0] for c in cells if c[0] != "m"}
+    if kinds == {"s"}:
+        # the specification-level string table (rows containing a token, Props/C18.v 6b) against the code
+        t += f" && outcome_eqb (Inferred (Some (string_table_spec (dropna {cl})))) {coq_outcome(o)}"
     if "preds" in o and preds:
         t += f" && bools_eqb (dtype_preds {cl}) {C.clist(o['preds'], C.cbool)}"
     return t
